@@ -16,8 +16,11 @@ KEY_WIDTH = {"a": 1, "b": 1, "c": 2, "d": 1}
 
 
 def _is_unitary_items(items):
+    """unitary *and invertible through cirq.inverse* (what negative repetitions need): a user gate with only _unitary_ is not"""
     for it in items:
         if it["t"] in ("M", "C", "K", "CB"):
+            return False
+        if it["t"] == "U" and it["spec"].startswith("UnitaryOnly"):
             return False
         if it["t"] == "B" and not _is_unitary_items(it["body"]):
             return False
